@@ -37,6 +37,7 @@ func mkReader(s *simrt.Sim, data []byte, allowFail bool) *simio.Reader {
 	r.ZeroReads = s.Choose(3, "zeroreads") == 0
 	if allowFail && s.Choose(5, "srcfail") == 0 {
 		r.FailAt = s.Choose(len(data)+1, "failat")
+		r.FailErr = simio.FailureKinds[s.Choose(len(simio.FailureKinds), "srcerrkind")]
 	}
 	return r
 }
